@@ -73,6 +73,8 @@ class Run:
 
     # ------------------------------------------------------------------ util
     def ev(self, **kw):
+        if kw.get('ev') in ('bf_end', 'sb_end', 'build_end', 'clean'):
+            kw['fault'] = bool(self.interposer and self.interposer.take_fault())
         self.events.append(kw)
         return kw
 
@@ -312,7 +314,7 @@ class Run:
         vers = {k: terms.from_term(v) for k, v in (step.get('vers') or {}).items()}
         disk = sb.snapshot()
         vterm = {'k': 'dict', 'kv': [[terms.to_term(k), v] for k, v in (step.get('vers') or {}).items()]}
-        self.ev(ev='build', name=step.get('name', 'B'), vers=vterm,
+        self.ev(ev='build', name=step.get('name', 'B'), vers=vterm, bad=bool(step.get('bad')),
                 disk=disk, cser=self._cser(disk))
         root = Frame('root', '', None, [], {}, None)
         state = {'exc': None, 'invoked': False}
@@ -331,9 +333,23 @@ class Run:
         import tempfile
         os.environ['TMPDIR'] = sb.tmp
         tempfile.tempdir = None
+        bad = step.get('bad')
+        a_cache, a_name, a_vers, a_func = sb.cache_file(), step.get('name', 'B'), vers, rootfn
+        if bad == 'name_type':
+            a_name = 123
+        elif bad == 'func_type':
+            a_func = 'not callable'
+        elif bad == 'versions_type':
+            a_vers = [('f', 1)]
+        elif bad == 'versions_nonjson':
+            a_vers = {'f0a': {1, 2}}
+        elif bad == 'cache_type':
+            a_cache = 12345
+        elif bad == 'name_none':
+            a_name = None
         try:
             try:
-                v = FileBuilder.build_versioned(sb.cache_file(), step.get('name', 'B'), vers, rootfn)
+                v = FileBuilder.build_versioned(a_cache, a_name, a_vers, a_func)
                 out = {'out': 'returned', 'v': terms.to_term(v), 'err': '', 'same': False}
             except Exception as x:
                 out = {'out': 'raised', 'v': {'k': 'none'}, 'err': x.__class__.__name__,
@@ -366,16 +382,34 @@ class Run:
     def do_clean(self, step):
         sb = self.sb
         disk = sb.snapshot()
+        bad = step.get('bad')
+        a_cache, a_name = sb.cache_file(), step.get('name', 'B')
+        if bad == 'name_type':
+            a_name = 123
+        elif bad == 'cache_type':
+            a_cache = 12345
+        if step.get('noname'):
+            a_name = None
         try:
-            FileBuilder.clean(sb.cache_file(), step.get('name', 'B'))
+            FileBuilder.clean(a_cache, a_name)
             out, err = 'ok', ''
         except Exception as x:
             out, err = 'raised', x.__class__.__name__
         after = sb.snapshot()
-        self.ev(ev='clean', name=step.get('name', 'B'), noname=False, disk=disk,
-                cser=self._cser(disk), out=out, err=err, after=after)
+        self.ev(ev='clean', name=step.get('name', 'B'), noname=bool(step.get('noname')), bad=bool(bad),
+                disk=disk, cser=self._cser(disk), out=out, err=err, after=after,
+                tmp=sb.tmp_entries() == [])
 
     def run(self):
+        if self.interposer is not None:
+            self.interposer.install()
+        try:
+            return self._run()
+        finally:
+            if self.interposer is not None:
+                self.interposer.uninstall()
+
+    def _run(self):
         try:
             for step in self.sc['steps']:
                 op = step['op']
@@ -391,8 +425,11 @@ class Run:
                     raise ValueError(op)
         finally:
             self.sb.destroy()
-        return {'id': self.sc.get('id', ''), 'cache': list(self.sb.cache_path),
-                'events': self.events}
+        out = {'id': self.sc.get('id', ''), 'cache': list(self.sb.cache_path), 'events': self.events}
+        if self.interposer is not None:
+            out['eligible'] = self.interposer.eligible
+            out['fault_fired'] = self.interposer.fault_fired
+        return out
 
 
 def mutate_in_place(v, depth=0):
@@ -473,4 +510,13 @@ def _prog_step(prog, fr):
 
 
 def run_scenario(scenario, parent_dir=None):
-    return Run(scenario, parent_dir).run()
+    ip = None
+    if scenario.get('interpose') or scenario.get('fault_at') is not None:
+        from .interpose import Interposer
+        import random
+        shuf = random.Random(scenario['shuffle_listdir']) if scenario.get('shuffle_listdir') is not None else None
+        kw = {}
+        if scenario.get('fault_calls'):
+            kw['faultable'] = set(scenario['fault_calls'])
+        ip = Interposer(fault_at=scenario.get('fault_at'), shuffle_listdir=shuf, **kw)
+    return Run(scenario, parent_dir, interposer=ip).run()
